@@ -136,6 +136,15 @@ def run_shard(sink, tier, seed, shard):  # noqa: C901
                 diffk = [k for k in base if base[k] != ob[k]]
                 sink.check(not diffk, 'same-process/observation/' + ','.join(diffk), 'loads(dumps(s)) has the same repr, paths, accessors, entries, children and unflatten result', ident,
                            lambda: {k: (base[k], ob[k]) for k in diffk})
+            if pickles:
+                # treespecs inside a larger pickle (memoised, shared key objects) and next to their own leaves
+                try:
+                    bundle = pickle.loads(pickle.dumps([s, (s, {'k': s}), s.children(), s.paths()], pickle.HIGHEST_PROTOCOL))
+                    ok = bundle[0] == s and bundle[1][0] == s and bundle[1][1]['k'] == s and obs(bundle[1][1]['k']) == base and [repr(x) for x in bundle[2]] == [repr(x) for x in s.children()]
+                    sink.check(ok, 'same-process/bundle', 'a treespec pickled inside a larger object graph is preserved exactly', ident)
+                    sink.count('bundles')
+                except pickle.PicklingError:
+                    pass
             if unpicklable:
                 sink.count('skipped:python-cannot-pickle-class')
             for name, cp in (('copy', copy.copy(s)), ('deepcopy', copy.deepcopy(s))):
